@@ -38,6 +38,82 @@ def make_script(pair, r):
     return w
 
 
+def paged_memory_crosscheck(base, model, res, r, tier):
+    """PagedMem.v (model of random-access-memory 3.0.0, proved to refine the flat file of Storage.v:
+    C14_paged_memory_refines_flat_file) against the crate itself on random operation sequences with small page sizes
+    (page borders everywhere) and with the default 1 MiB page; the flat-file answer is printed by the model driver too."""
+    n = 300 if tier == "quick" else 6000
+    for k in range(n):
+        ps = r.choice([1, 2, 3, 4, 5, 8, 16, 1048576])
+        top = ps * r.choice([2, 5, 9]) if ps < 1000 else 3000
+        ops = []
+        for _ in range(r.randrange(1, 14)):
+            c = r.random()
+            off = r.choice([0, r.randrange(top + 3), r.randrange(top + 3), (r.randrange(6)) * ps])
+            ln = r.choice([0, 1, r.randrange(2 * ps + 2) if ps < 1000 else r.randrange(40), ps if ps < 1000 else 7])
+            if c < 0.4:
+                ops.append("w:%d:%s" % (off, hexb(bytes(r.randrange(1, 256) for _ in range(ln)))))
+            elif c < 0.6:
+                ops.append("r:%d:%d" % (off, ln))
+            elif c < 0.8:
+                ops.append("d:%d:%d" % (off, ln))
+            elif c < 0.93:
+                ops.append("t:%d" % off)
+            else:
+                ops.append("l")
+        cmd = "ramx %d %s" % (ps, " ".join(ops))
+        ia = base.cmd(cmd)
+        ma = model.cmd(cmd)
+        res.count("paged-memory-sequences")
+        if "||" not in ma:
+            res.disagreements.append(dict(cmd=cmd[:200], impl=ia[:200], model=ma[:200]))
+            continue
+        mram, mfile = [x.strip() for x in ma[3:].split("||")]
+        if klass(ia) == "crash" or ia[3:].strip() != mram:
+            res.disagreements.append(dict(cmd=cmd[:300], impl=ia[:300], model="ok " + mram[:300], level="random-access-memory vs PagedMem.v"))
+        if mram != mfile:
+            res.disagreements.append(dict(cmd=cmd[:300], impl="paged model: " + mram[:300], model="flat file: " + mfile[:300], level="PagedMem.v vs Storage.v (theorem instance)"))
+        if len(res.disagreements) >= 3:
+            break
+
+
+def overwrite_scenarios(base, nocache, model, res, r, tier):
+    """Storage::open(.., overwrite = true) over storage that already holds a core (src/storage/mod.rs): the new core must behave,
+    and leave the same bytes, as on fresh storage — on every backend, whatever the old core left (a never-appended core: empty tree
+    and data stores; a core of empty blocks: empty data store; an ordinary core). Oracle = the same history on a fresh disk."""
+    found = []
+    preludes = [
+        ("never appended, other key", ["new W D altwriter"]),
+        ("only empty blocks", ["new W D writer", "append W _ _", "append W _"]),
+        ("ordinary core", ["new W D writer", "append W 6161 62", "append W 636363"]),
+        ("cleared to nothing", ["new W D writer", "append W 6161", "clear W 0 1"]),
+    ]
+    hist = ["append W 7a", "append W 7979 78", "info W", "get W 0", "get W 1", "get W 2", "get W 3", "has W 0", "has W 3",
+            "keypair W", "drop W", "open W D", "info W", "get W 1", "keypair W"]
+    for name, pre in preludes:
+        for (srv, dk) in [(base, "vec"), (base, "ram"), (base, "file"), (nocache, "file"), (model, "vec")]:
+            res.count("overwrite-scenarios")
+            fresh_ans, fresh_files = run_config(srv, ["new W D writer"] + hist, dk, "off")
+            over_ans, over_files = run_config(srv, pre + ["drop W", "newover W D writer"] + hist, dk, "off")
+            over_ans = over_ans[len(pre) + 1:]
+            who = "model" if srv is model else "backend=%s" % dk
+            if over_ans != fresh_ans:
+                j = next(i for i in range(len(fresh_ans)) if over_ans[i] != fresh_ans[i])
+                cmdj = (["newover W D writer"] + hist)[j]
+                d = dict(key="overwrite:observation", what="%s, old storage '%s': after creating with overwrite, %s answered %s; on fresh storage %s" %
+                         (who, name, cmdj, over_ans[j][:80], fresh_ans[j][:80]), replay=dict(prelude=pre, history=hist, backend=dk))
+                (res.disagreements if srv is model else found).append(d if srv is not model else dict(cmd=cmdj, impl="fresh: " + fresh_ans[j][:100], model=over_ans[j][:100]))
+                break
+            if over_files != fresh_files:
+                d = dict(key="overwrite:bytes", what="%s, old storage '%s': storage files after overwrite differ from those of the same history on fresh storage" % (who, name),
+                         replay=dict(prelude=pre, history=hist, backend=dk))
+                (res.disagreements if srv is model else found).append(d if srv is not model else dict(cmd="files", impl="fresh", model="differ after newover"))
+                break
+        if found:
+            break
+    return found
+
+
 def main(tier, seed):
     res = Result("C14", tier, seed)
     res.gate = coq_gate("C14.v", clean=(tier == "thorough"))
@@ -48,6 +124,10 @@ def main(tier, seed):
     nocache = impl_server(cache=False, scratch=scratch)  # feature not compiled
     model = model_server()
     try:
+        res.violations.extend(overwrite_scenarios(base, nocache, model, res, r, tier))
+        res.add_case(("overwrite",), True, sample="old core on the storage, then new core with overwrite=true: same as fresh storage")
+        paged_memory_crosscheck(nocache, model, res, r, tier)
+        res.add_case(("paged-memory",), True, sample="ramx <page size> <random write/read/del/truncate/len sequence>: crate vs PagedMem.v vs flat file")
         n = 10 if tier == "quick" else 200
         for k in range(n):
             # script: a writer history with reads, then replication to a replica driven by the baseline run
